@@ -27,35 +27,53 @@ THEOREMS = [P + n for n in (
     'model_predictions_equal', 'roundtrip_after_history',
     'index_lookup_order_free', 'index_lookup_numeric',
     'save_pure', 'no_overwrite_guard', 'overwrite_exact', 'fresh_save_exact',
-    'pinned_reload_changes_variance')]
-RULE = ('one PRNG; a case = 1-3 objects of the five kinds (sizes 1-6, values incl. NaN/inf/-0, '
-        'descriptor values: str / unicode str / int / float / bool / None / list / tuple / 1-d and '
-        '2-d arrays / string arrays / nested dict, absent measure) after 0-3 structural operations, '
-        'then 2-8 save/load operations (hdf5|pkl, path|named handle|memory handle, overwrite '
-        'on/off, fresh|existing). Non-trivial: at least one successful load that is compared; '
+    'pinned_reload_changes_variance',
+    # round 3: the code as written (generated decision structures) is the specification
+    'write_dispatch_table', 'list_fallback_table', 'encodeC_eq_encode', 'saveC_eq_save',
+    'save_defaults', 'autodetect_table', 'autodetect_agrees',
+    # lists that are no arrays; second saves into a used handle
+    'list_stays_list', 'dict_to_list_spec', 'second_save_refused', 'save_twice_keeps_first',
+    'pkl_append_keeps_first',
+    # objects after arbitrary histories over the operation alphabets of C10 / C11
+    'roundtrip_after_c10_history', 'roundtrip_after_c11_history')]
+RULE = ('one PRNG; a case = 1-3 objects of the five kinds (RDMs, Dataset / DatasetBase / TemporalDataset, 5 model '
+        'classes, Result from constructor or 5 evaluators; sizes 1-13, values incl. NaN/inf/-0; descriptor values: '
+        'str / unicode / empty / long str, int / float / bool / None, numpy scalars and small dtypes, list / tuple / '
+        '0-d to 2-d arrays / empty arrays / string arrays / object arrays, lists that are no arrays (ragged, mixed '
+        'with None) in every descriptor position, dicts nested two deep, absent measure) after 0-3 structural '
+        'operations, then 2-8 save/load operations (hdf5|pkl or save\'s defaults, path with 19 name endings | '
+        'named handle | memory handle, overwrite on/off, fresh|existing, second saves into a used handle, '
+        'load with / without file_type). Non-trivial: at least one successful load that is compared; '
         'distinct = distinct (object specs, operation list)')
 BRANCHES = ['kind:rdms', 'kind:dataset', 'kind:temporal', 'kind:model', 'kind:result',
             'ft:hdf5', 'ft:pkl', 'target:path', 'target:named', 'target:mem',
             'save:fresh', 'save:existing+overwrite', 'save:existing-overwrite',
             'guard:hdf5-path-exists', 'load:autodetect', 'load:error',
             'desc:unicode-array', 'desc:unicode-str', 'desc:matrix', 'desc:none', 'desc:tuple',
-            'desc:hlist', 'desc:hlist>=11',
+            'desc:hlist', 'desc:hlist>=11', 'desc:nlist', 'desc:nlist:rdms', 'desc:nlist:dataset',
+            'desc:nlist:model', 'desc:nlist:result', 'desc:list-in-object-descriptors',
+            'desc:npscalar', 'desc:small-dtype', 'desc:object-array', 'desc:object-array-none', 'desc:empty', 'desc:long-str', 'desc:nested2',
+            'kind:datasetbase', 'result:fitter', 'save:default-args', 'name:hdf5-ending', 'name:unrecognised', 'name:misleading',
+            'handle:second-save-hdf5', 'handle:second-save-pkl',
             'desc:nested', 'value:nan', 'value:inf', 'measure:absent', 'history',
             'result:evaluator', 'result:ctor', 'result:postset', 'result:variances-none',
             'result:models>=11',
             'model:Model', 'model:ModelFixed', 'model:ModelSelect', 'model:ModelWeighted',
             'model:ModelInterpolate']
 ASSUMPTIONS = [
-    'strings contain no NUL character (h5py rejects them in attributes, numpy strips trailing '
-    'NULs in fixed-width arrays); integers fit int64; lists are rectangular and do not mix '
-    'numbers with strings (numpy would stringify the numbers)',
+    'strings contain no NUL character (h5py rejects them in attributes, numpy strips trailing NULs in fixed-width '
+    'arrays); integers fit int64; an array-like list does not mix bare numbers with strings (numpy would stringify the '
+    'numbers); values are not bytes, complex, datetime or sets',
+    'dictionary keys are non-empty strings without "/" (h5py makes nested groups of a/b), other than ".", and no '
+    'descriptor is called "rsatoolbox_list" (the marker of a list group) or "rsatoolbox_version"',
     'reading back an open handle means reading the file from its start (the adaptor seeks to 0)',
     'an RDMs object has at least one condition (with none left, the vector form is the same as for one '
     'condition and the constructor cannot recover n_cond = 0)',
-    'ragged / mixed lists occur as rdm_/pattern_descriptors of RDMs (where dict_to_list is wired) and do '
-    'not mix bare numbers with strings',
     'a model built on an RDMs object holds at least one RDM (Model.to_dict tests the truth value of '
     'rdm_obj, i.e. len(rdms) > 0; an empty model is saved without its RDMs)',
+    'file_type is "hdf5" or "pkl" (save() with any other string writes nothing and raises nothing)',
+    'second saves into a used open handle without overwrite (outside the property; the model states what h5py / '
+    'pickle do) are generated for sessions of plain objects only, see gen_case',
 ]
 TRUSTED_EXTRA = [
     'h5py: a group is a finite map from names to datasets/groups plus string attributes; what '
@@ -111,12 +129,48 @@ def _hlist(rng, n, uni):
     return {'py': 'list', 'v': v, 'h': True}
 
 
-def _elem_desc(rng, n, uni, hlist=0.0):
+def _nlist(rng, n, uni):
+    """a flat list of length n mixing one kind of scalar with None (what `rdm.concat` builds for a
+    descriptor only some of its arguments carry; numpy makes it an object array, the HDF5 writer
+    must not store it as numbers: None is not NaN)"""
+    kind = rng.choice(['int', 'int', 'float', 'str', 'bool'])
+
+    def elem():
+        if kind == 'int':
+            return {'py': 'int', 'v': rng.randint(0, 9)}
+        if kind == 'float':
+            return {'py': 'float', 'v': _fl(rng)}
+        if kind == 'bool':
+            return {'py': 'bool', 'v': rng.random() < 0.5}
+        return {'py': 'str', 'v': _s(rng, uni)}
+    v = [elem() if rng.random() < 0.6 else {'py': 'none'} for _ in range(n)]
+    v[rng.randrange(n)] = {'py': 'none'}
+    return {'py': 'list', 'v': v, 'nl': kind}
+
+
+def _elem_desc(rng, n, uni, hlist=0.0, nlist=0.0):
     """a per-element descriptor value of length n"""
     if n >= 2 and rng.random() < hlist:
         return _hlist(rng, n, uni)
+    if rng.random() < nlist:
+        return _nlist(rng, n, uni)
     t = rng.choice(['list_int', 'list_str', 'list_float', 'nd_int', 'nd_str', 'nd_float', 'nd_2d',
-                    'list_bool'])
+                    'list_bool', 'nd_small', 'nd_obj'])
+    if t == 'nd_obj':        # arrays of python objects: a pandas string column, numbers, missing entries
+        k = rng.choice(['str', 'str', 'num', 'none'])
+        if k == 'str':
+            v = [_s(rng, uni) or 'e' for _ in range(n)]
+        elif k == 'num':
+            v = [rng.randint(0, 9) for _ in range(n)]
+        else:
+            v = [rng.choice([None, rng.randint(0, 9)]) for _ in range(n)]
+            v[rng.randrange(n)] = None
+        return {'py': 'nd', 'dtype': 'O', 'shape': [n], 'v': v, 'ok': k}
+    if t == 'nd_small':      # small numpy dtypes: the dtype travels, the values are equal
+        dt = rng.choice(['float32', 'int8', 'bool_', 'uint16', 'float16'])
+        return {'py': 'nd', 'dtype': dt, 'shape': [n],
+                'v': [rng.randint(0, 1) if dt == 'bool_' else rng.randint(0, 9) / (1 if dt[0] != 'f' else 4)
+                      for _ in range(n)]}
     if t == 'list_int':
         return {'py': 'list', 'v': [{'py': 'int', 'v': rng.randint(0, 3)} for _ in range(n)]}
     if t == 'list_str':
@@ -138,7 +192,30 @@ def _obj_desc(rng, uni, depth=0):
     """a per-object descriptor value"""
     t = rng.choice(['str', 'str', 'int', 'float', 'bool', 'none', 'list_int', 'list_float',
                     'list_str', 'nd_vec', 'matrix', 'nd_str', 'tuple_str', 'tuple_int', 'nested',
-                    'np_scalar'])
+                    'np_scalar', 'nlist', 'hlist', 'npscalar', 'empty', 'long_str', 'nd_small', 'nd_obj'])
+    if t == 'nd_obj':
+        d = _elem_desc(rng, rng.randint(1, 4), uni)
+        while d.get('dtype') != 'O':
+            d = _elem_desc(rng, rng.randint(1, 4), uni)
+        return d
+    if t == 'nlist':
+        return _nlist(rng, rng.randint(1, 4), uni)
+    if t == 'hlist':
+        return _hlist(rng, rng.randint(2, 4), uni)
+    if t == 'npscalar':      # numpy scalar objects: np.float32(1.5), np.int8(-3), np.bool_(True)
+        dt = rng.choice(['float32', 'int8', 'bool_', 'float64', 'int64'])
+        return {'py': 'npscalar', 'dtype': dt,
+                'v': (rng.random() < 0.5) if dt == 'bool_' else rng.randint(-8, 8) / (1 if dt[0] == 'i' else 4)}
+    if t == 'empty':         # empty containers and arrays
+        return rng.choice([{'py': 'list', 'v': []}, {'py': 'tuple', 'v': []}, {'py': 'dict', 'v': []},
+                           {'py': 'nd', 'dtype': 'f', 'shape': [0], 'v': []},
+                           {'py': 'nd', 'dtype': 'f', 'shape': [0, 3], 'v': []},
+                           {'py': 'nd', 'dtype': 'U', 'shape': [0], 'v': []},
+                           {'py': 'str', 'v': ''}])
+    if t == 'long_str':
+        return {'py': 'str', 'v': ''.join(_s(rng, uni) or '-' for _ in range(rng.randint(300, 700)))}
+    if t == 'nd_small':
+        return _elem_desc(rng, rng.randint(1, 4), uni)
     if t == 'str':
         return {'py': 'str', 'v': _s(rng, uni)}
     if t == 'int':
@@ -169,7 +246,7 @@ def _obj_desc(rng, uni, depth=0):
         return {'py': 'tuple', 'v': [{'py': 'int', 'v': rng.randint(0, 99)} for _ in range(k)]}
     if t == 'np_scalar':
         return {'py': 'nd', 'dtype': rng.choice('fi'), 'shape': [], 'v': [rng.randint(0, 9)]}
-    if depth >= 1:
+    if depth >= 2:
         return {'py': 'int', 'v': 1}
     return {'py': 'dict', 'v': [[kk, _obj_desc(rng, uni, depth + 1)]
                                 for kk in rng.sample(KEYS, rng.randint(0, 2))]}
@@ -189,15 +266,15 @@ def gen_rdms(rng, uni, n_rdm=None, n_cond=None, history=True, min_rdm=1, long=No
             'dis': [[_fl(rng, sp) for _ in range(npair)] for _ in range(n_rdm)],
             'measure': rng.choice([None, None, 'euclidean', 'crossnobis', _s(rng, uni)]),
             'descriptors': _descs(rng, lambda: _obj_desc(rng, uni)),
-            'rdm_descriptors': _descs(rng, lambda: _elem_desc(rng, n_rdm, uni, 0.2), 0, 2),
-            'pattern_descriptors': _descs(rng, lambda: _elem_desc(rng, n_cond, uni, 0.15), 0, 2)}
+            'rdm_descriptors': _descs(rng, lambda: _elem_desc(rng, n_rdm, uni, 0.2, 0.2), 0, 2),
+            'pattern_descriptors': _descs(rng, lambda: _elem_desc(rng, n_cond, uni, 0.15, 0.15), 0, 2)}
     if long:       # an index-keyed group with more than ten members ('10' sorts before '2')
         spec['rdm_descriptors'].append(['hl', _hlist(rng, n_rdm, uni)])
     if history and rng.random() < 0.5:
         h = []
         for _ in range(rng.randint(1, 3)):
             op = rng.choice(['subset_pattern', 'subsample_pattern', 'subset', 'subsample', 'reorder',
-                             'sort_by', 'getitem', 'concat_self', 'append_self'])
+                             'sort_by', 'getitem', 'concat_self', 'append_self', 'concat_bare'])
             if op in ('subset_pattern', 'subsample_pattern'):
                 h.append([op, 'index', [rng.randrange(n_cond) for _ in range(rng.randint(2, n_cond))]])
             elif op in ('subset', 'subsample'):
@@ -221,20 +298,23 @@ def gen_dataset(rng, uni, temporal=False):
     shape = [n_obs, n_ch] + ([rng.randint(1, 4)] if temporal else [])
     size = math.prod(shape)
     sp = 0.1 if rng.random() < 0.4 else 0.0
-    obs = _descs(rng, lambda: _elem_desc(rng, n_obs, uni), 0, 2)
+    lists = rng.random() < 0.3      # lists that are no arrays among the per-element descriptors
+    obs = _descs(rng, lambda: _elem_desc(rng, n_obs, uni, 0.3 * lists, 0.4 * lists), 0, 2)
     obs.append(['c', {'py': 'list', 'v': [{'py': 'int', 'v': rng.randint(0, 2)} for _ in range(n_obs)]}])
-    spec = {'kind': 'dataset', 'shape': shape, 'meas': [_fl(rng, sp) for _ in range(size)],
+    spec = {'kind': 'dataset', 'cls': 'DatasetBase' if not temporal and rng.random() < 0.15 else None,
+            'shape': shape, 'meas': [_fl(rng, sp) for _ in range(size)],
             'descriptors': _descs(rng, lambda: _obj_desc(rng, uni)),
             'obs_descriptors': obs,
-            'channel_descriptors': _descs(rng, lambda: _elem_desc(rng, n_ch, uni), 0, 2)}
+            'channel_descriptors': _descs(rng, lambda: _elem_desc(rng, n_ch, uni, 0.3 * lists, 0.4 * lists),
+                                          0, 2)}
     if temporal:
         nt = shape[2]
         if rng.random() < 0.7:
             td = [['time', {'py': 'nd', 'dtype': 'f', 'shape': [nt], 'v': [i / 4 for i in range(nt)]}]]
             if rng.random() < 0.3:
-                td.append(['lab', _elem_desc(rng, nt, uni)])
+                td.append(['lab', _elem_desc(rng, nt, uni, 0.3 * lists, 0.4 * lists)])
             spec['time_descriptors'] = td
-    if rng.random() < 0.5:
+    if rng.random() < 0.5 and not spec['cls']:
         h = []
         for _ in range(rng.randint(1, 2)):
             op = rng.choice(['subset_obs', 'subset_channel', 'sort_by', 'split_obs', 'copy']
@@ -324,7 +404,9 @@ def gen_result(rng, uni, many=None):
             'evaluations': [_fl(rng, 0.05 if rng.random() < 0.3 else 0) for _ in range(math.prod(ev_shape))],
             'ev_shape': ev_shape, 'noise_ceiling': [rng.randint(0, 8) / 8, rng.randint(0, 8) / 8],
             'nc_shape': [2], 'method': rng.choice(['cosine', 'corr', _s(rng, uni) or 'm']),
-            'cv_method': rng.choice(['fixed', 'bootstrap_rdm', 'crossvalidation', 'test_cv']),
+            'cv_method': rng.choice(['fixed', 'bootstrap_rdm', 'bootstrap_pattern', 'bootstrap', 'dual_bootstrap',
+                                     'crossvalidation', 'bootstrap_crossval', 'test_cv', 'Fixed', _s(rng, uni) or 'cv']),
+            'fitter': rng.random() < 0.3,
             'variances': None, 'var_shape': var_shape, 'dof': rng.randint(1, 9),
             'n_rdm': rng.choice([None, rng.randint(2, 9)]),
             'n_pattern': rng.choice([None, rng.randint(2, 9)])}
@@ -357,14 +439,45 @@ def gen_obj(rng, kind=None):
     return gen_result(rng, uni)
 
 
+# file name endings: what `load_*` recognises without `file_type` ('.pkl' | '.h5' | 'hdf5', by the
+# last characters only, case-sensitively) and what it does not
+NAMES_H5 = ['.h5', '.h5', '.hdf5', '_hdf5', '.pkl.h5', '.tar.hdf5']
+NAMES_PKL = ['.pkl', '.pkl', '.h5.pkl', '.x.pkl']
+NAMES_OTHER = ['.dat', '.H5', '.PKL', '.hdf', '.pickle', '.h5 ', '', '.pkl.bak', '.Hdf5']
+
+
+def name_type(name):
+    """independent statement of the loaders' rule (used by the generator and the oracle)"""
+    if name.endswith('.pkl'):
+        return 'pkl'
+    if name.endswith('.h5') or name.endswith('hdf5'):
+        return 'hdf5'
+    return None
+
+
+def _plain(spec):
+    """no value whose HDF5 storage goes through the per-element list group or an object array
+    (the values the two open findings list-as-dict / object-array are about)"""
+    return not _has(spec, lambda d: (d.get('py') == 'list' and (d.get('nl') or d.get('h')))
+                    or (d.get('py') == 'nd' and d.get('dtype') == 'O')
+                    or (isinstance(d.get('history'), list) and any(h and h[0] == 'concat_bare'
+                                                                   for h in d['history'])))
+
+
 def gen_case(rng):
     objs = [gen_obj(rng) for _ in range(rng.randint(1, 3))]
     kinds = [o['kind'] for o in objs]
+    # a second save into an open handle *without overwrite* (HDF5: h5py merges or refuses; pickle:
+    # appended) is something the property does not speak about; the model does.  Those
+    # experiments are run with plain objects only, so that a disagreement there can never be an
+    # echo of an open finding on list / object-array values (which the oracle could not attribute)
+    experiments = all(_plain(o) for o in objs)
     targets = []
     for i in range(rng.randint(1, 3)):
         r = rng.random()
         if r < 0.6:
-            targets.append({'path': True, 'id': i, 'ext': rng.choice(['h5', 'h5', 'pkl', 'other'])})
+            targets.append({'path': True, 'id': i,
+                            'name': rng.choice(rng.choice([NAMES_H5, NAMES_H5, NAMES_PKL, NAMES_OTHER]))})
         elif r < 0.8:
             targets.append({'path': False, 'id': i, 'mem': False})
         else:
@@ -376,8 +489,9 @@ def gen_case(rng):
         t = targets[ti]
         if ti in holds and rng.random() < 0.5:
             kind, ft = holds[ti]
-            auto = t['path'] and rng.random() < 0.4 and kind != 'model' and \
-                ((t['ext'] == 'h5' and ft == 'hdf5') or (t['ext'] == 'pkl' and ft == 'pkl'))
+            # no file_type: mostly where the ending names the right type, sometimes where it
+            # names the other one or nothing (then an error is due)
+            auto = t['path'] and rng.random() < (0.5 if name_type(t['name']) == ft else 0.1)
             ops.append({'do': 'load', 'kind': kind, 'target': t, 'ft': None if auto else ft})
             continue
         if ti not in holds and rng.random() < 0.06:
@@ -385,16 +499,29 @@ def gen_case(rng):
                         'ft': rng.choice(['hdf5', 'pkl'])})
             continue
         oi = rng.randrange(len(objs))
-        if t['path'] and t['ext'] in ('h5', 'pkl') and rng.random() < 0.85:
-            ft = 'hdf5' if t['ext'] == 'h5' else 'pkl'
+        if t['path'] and name_type(t['name']) and rng.random() < 0.85:
+            ft = name_type(t['name'])
         else:
             ft = rng.choice(['hdf5', 'hdf5', 'pkl'])
         ov = rng.random() < (0.55 if ti in holds else 0.25)
-        ops.append({'do': 'save', 'obj': oi, 'target': t, 'ft': ft, 'overwrite': ov})
+        if ti in holds and not t['path'] and not experiments:
+            ov = True
+        op = {'do': 'save', 'obj': oi, 'target': t, 'ft': ft, 'overwrite': ov}
+        # sometimes leave an argument out: the defaults of `save` (hdf5, no overwrite) apply
+        if ft == 'hdf5' and rng.random() < 0.15:
+            del op['ft']
+        if not ov and rng.random() < 0.15:
+            del op['overwrite']
+        ops.append(op)
         blocked = ti in holds and not ov and ft == 'hdf5'
         appended = ti in holds and not ov and ft == 'pkl' and not t['path']
         if not blocked and not appended:
             holds[ti] = (kinds[oi], ft)
+        elif not t['path'] and rng.random() < 0.6:
+            # a second save into an open handle without overwrite (HDF5: merged or refused by
+            # h5py; pickle: appended): read back as the new and / or the old kind right away
+            for kk in rng.sample([kinds[oi], holds[ti][0]], rng.randint(1, 2)):
+                ops.append({'do': 'load', 'kind': kk, 'target': t, 'ft': ft})
     for ti, (kind, ft) in holds.items():       # what does every file hold in the end?
         ops.append({'do': 'load', 'kind': kind, 'target': targets[ti], 'ft': ft})
     return {'objs': objs, 'ops': ops}
@@ -406,7 +533,7 @@ def generate(rng, tier):
     for kind in ('rdms', 'dataset', 'temporal', 'model', 'result'):
         for ft, ext in (('hdf5', 'h5'), ('pkl', 'pkl')):
             a, b = gen_obj(rng, kind), gen_obj(rng, kind)
-            t = {'path': True, 'id': 0, 'ext': ext}
+            t = {'path': True, 'id': 0, 'name': '.' + ext}
             yield {'objs': [a, b], 'ops': [
                 {'do': 'save', 'obj': 0, 'target': t, 'ft': ft, 'overwrite': False},
                 {'do': 'load', 'kind': a['kind'], 'target': t, 'ft': None if kind != 'model' else ft},
@@ -416,10 +543,28 @@ def generate(rng, tier):
                 {'do': 'load', 'kind': a['kind'], 'target': t, 'ft': ft}]}
     # a Result with more than ten models through HDF5 (members come back alphabetically)
     for ext, ft in (('h5', 'hdf5'), ('pkl', 'pkl')):
-        t = {'path': True, 'id': 0, 'ext': ext}
+        t = {'path': True, 'id': 0, 'name': '.' + ext}
         yield {'objs': [gen_result(rng, 0.0, many=True)], 'ops': [
             {'do': 'save', 'obj': 0, 'target': t, 'ft': ft, 'overwrite': False},
             {'do': 'load', 'kind': 'result', 'target': t, 'ft': None}]}
+    # dictionaries nested two deep holding a list with a missing entry, in every kind's descriptors
+    deep = ['info', {'py': 'dict', 'v': [['a', {'py': 'dict', 'v': [['b', _nlist(rng, 3, 0.0)],
+                                                                      ['c', {'py': 'str', 'v': 'x'}]]}],
+                                         ['n', {'py': 'int', 'v': 1}]]}]
+    for kind in ('rdms', 'dataset', 'model'):
+        o = gen_obj(rng, kind)
+        (o['rdm'] if kind == 'model' and 'rdm' in o and o['rdm'].get('kind') == 'rdms' else o) \
+            .setdefault('descriptors', []).append(deep)
+        t = {'path': False, 'id': 0, 'mem': True}
+        yield {'objs': [o], 'ops': [{'do': 'save', 'obj': 0, 'target': t, 'ft': 'hdf5', 'overwrite': False},
+                                    {'do': 'load', 'kind': o['kind'], 'target': t, 'ft': 'hdf5'}]}
+    # a file whose name says the other type: `load_*` without file_type must fail, with it succeed
+    for nm, ft in (('.pkl', 'hdf5'), ('.h5', 'pkl'), ('.tar.hdf5', 'pkl'), ('.H5', 'hdf5'), ('.pickle', 'pkl')):
+        o = gen_obj(rng, rng.choice(['rdms', 'dataset', 'result']))
+        t = {'path': True, 'id': 0, 'name': nm}
+        yield {'objs': [o], 'ops': [{'do': 'save', 'obj': 0, 'target': t, 'ft': ft, 'overwrite': True},
+                                    {'do': 'load', 'kind': o['kind'], 'target': t, 'ft': None},
+                                    {'do': 'load', 'kind': o['kind'], 'target': t, 'ft': ft}]}
     for _ in range(n):
         yield gen_case(rng)
 
@@ -460,7 +605,8 @@ def model_requests(case):
     return [{'op': 'c16.session', 'codec': 'utf8',
              'objs': [{'kind': k, 'obj': L.wire(L.attrs(k, o))} for k, o in zip(kinds, objs)],
              'ops': [dict(op, target={'path': op['target']['path'], 'id': op['target']['id'],
-                                      'ext': op['target'].get('ext', 'other')}) for op in case['ops']]}]
+                                      'name': L._text(L.target_name(op['target']))})
+                     for op in case['ops']]}]
 
 
 def model_result(case, answers):
@@ -507,7 +653,7 @@ def _same(a, b, path=''):
     same keys, element-wise equal values, NaN equal to NaN"""
     if isinstance(a, dict) or isinstance(b, dict):
         if not (isinstance(a, dict) and isinstance(b, dict)):
-            return f'{path}: dict vs {type(b).__name__}'
+            return f'{path}: {type(a).__name__} vs {type(b).__name__}'
         if set(a) != set(b):
             return f'{path}: keys {sorted(a)} != {sorted(b)}'
         for k in a:
@@ -560,7 +706,7 @@ def _fail(case, i, symptom, what, observed, expected, op, spec):
     """a property failure; `what` is free of positions so that equal defects group together"""
     f = {'symptom': symptom, 'op_index': i}
     if op is not None:
-        f['ft'] = op.get('ft')
+        f['ft'] = op.get('ft') if op['do'] == 'load' else _ft(op)
         f['target'] = 'path' if op['target']['path'] else 'mem' if op['target'].get('mem') else 'named'
         f['overwrite'] = op.get('overwrite')
     if spec is not None:
@@ -580,8 +726,17 @@ def _fail(case, i, symptom, what, observed, expected, op, spec):
             and (o['target']['path'], o['target']['id']) == tkey]
     # an open handle that already held something was saved to again with overwrite=True
     handle_ov = op is not None and not op['target']['path'] and any(
-        o['overwrite'] for o in same[1:])
+        _ov(o) for o in same[1:])
     f['has_hlist'] = spec is not None and _has(spec, lambda d: d.get('py') == 'list' and d.get('h'))
+    f['has_nlist'] = spec is not None and _has(spec, lambda d: d.get('py') == 'list' and d.get('nl'))
+    f['has_objarr_str'] = spec is not None and _has(
+        spec, lambda d: d.get('py') == 'nd' and d.get('dtype') == 'O' and d.get('ok') == 'str')
+    # object arrays: given, or built by numpy from a list with missing entries (time_as_observations
+    # / time_as_channels repeat the descriptor lists with np.repeat / np.tile)
+    f['has_objarr'] = spec is not None and (
+        _has(spec, lambda d: d.get('py') == 'nd' and d.get('dtype') == 'O')
+        or ((f['has_nlist'] or f['has_hlist']) and any(
+            h and h[0] in ('time_as_observations', 'time_as_channels') for h in (spec.get('history') or []))))
     if symptom == 'save-error:UnicodeEncodeError':
         f['defect'] = 'unicode-array'
     elif symptom in ('save-error:ValueError', 'save-error:TypeError') and f['has_hlist'] \
@@ -590,6 +745,17 @@ def _fail(case, i, symptom, what, observed, expected, op, spec):
         f['defect'] = 'ragged-list'
     elif symptom in ('result-variances', 'behaviour') and spec is not None and spec['kind'] == 'result':
         f['defect'] = 'result-variances'
+    elif symptom == 'field' and (f['has_hlist'] or f['has_nlist'] or f['has_objarr']) \
+            and f.get('ft') in ('hdf5', None) and 'list vs dict' in str(observed):
+        # a list that is no array (ragged / holding None) comes back from HDF5 as the
+        # index-keyed dictionary of its entries
+        f['defect'] = 'list-as-dict'
+    elif f.get('ft') in ('hdf5', None) and f['has_objarr'] and (
+            (symptom == 'save-error:TypeError' and 'Object dtype' in str(observed))
+            or (symptom == 'field' and f['has_objarr_str'])):
+        # an ndarray of dtype object: strings come back as bytes objects, one holding None
+        # cannot be written at all
+        f['defect'] = 'object-array'
     elif handle_ov and symptom.split(':')[0] in ('save-error', 'load-error', 'field', 'class'):
         f['defect'] = 'handle-overwrite'
     elif symptom == 'field' and f.get('has_tuple') and f.get('ft') in ('hdf5', None) \
@@ -598,6 +764,16 @@ def _fail(case, i, symptom, what, observed, expected, op, spec):
     else:
         f['defect'] = 'other'
     return {'what': what, 'where': f'op{i}', 'observed': observed, 'expected': expected, 'features': f}
+
+
+def _ft(op):
+    """file type of a save: the documented default of `save` is 'hdf5'"""
+    return op.get('ft') or 'hdf5'
+
+
+def _ov(op):
+    """overwrite flag of a save: the documented default is False"""
+    return bool(op.get('overwrite'))
 
 
 def oracle(case):
@@ -618,31 +794,41 @@ def oracle(case):
             if d:
                 return _fail(case, i, 'mutated', f'save changed the in-memory {kinds[j]}', d,
                              'unchanged', op, spec)
-            if op['ft'] == 'hdf5' and t['path'] and cur is not None and not op['overwrite']:
+            if _ft(op) == 'hdf5' and t['path'] and cur is not None and not _ov(op):
                 if not o['err']:
                     return _fail(case, i, 'guard', 'existing HDF5 path replaced without overwrite',
                                  'no error', 'refusal', op, spec)
                 continue                       # the file must be unchanged: checked by later loads
-            if cur is None or op['overwrite'] or (op['ft'] == 'pkl' and t['path']):
+            if cur is None or _ov(op) or (_ft(op) == 'pkl' and t['path']):
                 if o['err']:
                     exc = o['err'].split(':')[0]
                     return _fail(case, i, 'save-error:' + exc,
                                  f'saving to a {"fresh" if cur is None else "to-be-overwritten"} '
                                  f'target fails with {exc}', o['err'], 'file holding the object', op, spec)
-                holds[key] = (op['ft'], j)
+                holds[key] = (_ft(op), {kinds[j]: j})
+            elif _ft(op) == 'hdf5' and cur[0] == 'hdf5' and not o['err']:
+                # a second HDF5 save into an open handle without overwrite that *reports success*
+                # (h5py merged the new members into the file): the object just written must read
+                # back; what the file held for other kinds is no longer the property's business
+                holds[key] = ('hdf5', {kinds[j]: j})
+            elif _ft(op) == 'hdf5' and cur[0] == 'hdf5' and o['err']:
+                # … and one that h5py *refuses* (a member of that name exists): like the refusal
+                # for an existing path, the file must still hold what it held
+                pass
             else:
-                holds[key] = ('unspecified', None)   # 2nd save into an open handle, no overwrite
+                # pickle appended behind the first one / a file of the other type: the property is silent
+                holds[key] = ('unspecified', {})
             continue
         cur = holds.get(key)
         if cur is None or cur[0] == 'unspecified':
             continue
-        ft = op.get('ft') or ('hdf5' if t.get('ext') == 'h5' else 'pkl' if t.get('ext') == 'pkl' else None)
+        ft = op.get('ft') or (name_type(L.target_name(t)) if t['path'] else None)
         if ft != cur[0]:
             continue                                        # wrong-type load: only an error is due
-        j = cur[1]
-        spec = case['objs'][j]
-        if kinds[j] != op['kind']:
+        j = cur[1].get(op['kind'])
+        if j is None:
             continue
+        spec = case['objs'][j]
         if 'err' in o:
             exc = o['err'].split(':')[0]
             return _fail(case, i, 'load-error:' + exc, f'reading back a saved object fails with {exc}',
@@ -687,6 +873,10 @@ def features(case, impl):
     for s in case['objs']:
         k = s['kind']
         br.add('kind:temporal' if k == 'dataset' and len(s['shape']) == 3 else 'kind:' + k)
+        if k == 'dataset' and s.get('cls') == 'DatasetBase':
+            br.add('kind:datasetbase')
+        if k == 'result' and s.get('fitter'):
+            br.add('result:fitter')
         if k == 'rdms' and s.get('measure') is None:
             br.add('measure:absent')
         if k == 'result':
@@ -720,28 +910,63 @@ def features(case, impl):
                     br.add('desc:hlist>=11')
             if py == 'dict':
                 br.add('desc:nested')
+                if any(x.get('py') == 'dict' for _, x in d['v']):
+                    br.add('desc:nested2')
+            if py == 'list' and d.get('nl'):
+                br.add('desc:nlist')
+                br.add('desc:nlist:' + k)
+            if py == 'nd' and d['dtype'] == 'O':
+                br.add('desc:object-array')
+                if d.get('ok') == 'none':
+                    br.add('desc:object-array-none')
+            if py == 'npscalar':
+                br.add('desc:npscalar')
+            if py == 'nd' and d['dtype'] in L.NP_DTYPES:
+                br.add('desc:small-dtype')
+            if (py == 'nd' and 0 in d['shape']) or (py in ('list', 'tuple', 'dict') and not d['v']) \
+                    or (py == 'str' and d['v'] == ''):
+                br.add('desc:empty')
+            if py == 'str' and len(d['v']) > 250:
+                br.add('desc:long-str')
             if py == 'float' and d['v'] == 'nan':
                 br.add('value:nan')
             if py == 'float' and d['v'] in ('inf', '-inf'):
                 br.add('value:inf')
         _walk(s, visit)
+        if _has(s.get('descriptors', []), lambda d: d.get('py') == 'list' and (d.get('nl') or d.get('h'))):
+            br.add('desc:list-in-object-descriptors')
         for row in (s.get('dis') or []) + [s.get('meas') or []]:
             if 'nan' in row:
                 br.add('value:nan')
             if 'inf' in row or '-inf' in row:
                 br.add('value:inf')
     seen = set()
+    last_ft = {}
     for i, op in enumerate(case['ops']):
         t = op['target']
         key = (t['path'], t['id'])
         br.add('target:path' if t['path'] else 'target:mem' if t.get('mem') else 'target:named')
+        nm = L.target_name(t) if t['path'] else None
+        if nm is not None and nm.endswith('hdf5'):
+            br.add('name:hdf5-ending')
+        if op['do'] == 'load' and op.get('ft') is None and t['path'] and key in seen:
+            if name_type(nm) is None:
+                br.add('name:unrecognised')
+            elif name_type(nm) != last_ft.get(key):
+                br.add('name:misleading')
+        if op['do'] == 'save' and not t['path'] and key in seen and not _ov(op):
+            br.add('handle:second-save-' + _ft(op))
         if op['do'] == 'save':
-            br.add('ft:' + op['ft'])
+            last_ft[key] = _ft(op)
+        if op['do'] == 'save':
+            br.add('ft:' + _ft(op))
+            if 'ft' not in op or 'overwrite' not in op:
+                br.add('save:default-args')
             if key not in seen:
                 br.add('save:fresh')
             else:
-                br.add('save:existing+overwrite' if op['overwrite'] else 'save:existing-overwrite')
-                if not op['overwrite'] and t['path'] and op['ft'] == 'hdf5':
+                br.add('save:existing+overwrite' if _ov(op) else 'save:existing-overwrite')
+                if not _ov(op) and t['path'] and _ft(op) == 'hdf5':
                     br.add('guard:hdf5-path-exists')
             seen.add(key)
         else:
@@ -763,6 +988,15 @@ def nontrivial_key(case, impl):
 
 def shrink(case, still_fails):
     case = copy.deepcopy(case)
+    # keep the *kind* of failure while shrinking: a reduction that turns the failure into one of
+    # another class (e.g. into the witness of an open finding) is not a smaller instance of it
+    first = oracle(case)
+    if first:
+        cls = (first['features'].get('defect'), first['features'].get('symptom'))
+
+        def still_fails(c):   # noqa: F811
+            o = oracle(c)
+            return bool(o) and (o['features'].get('defect'), o['features'].get('symptom')) == cls
     changed = True
     while changed:
         changed = False
